@@ -101,7 +101,7 @@ func (dist *BinomialDistribution) SetN(n int) error {
 }
 
 func (dist *BinomialDistribution) LogPdf(r Scalar, x ConstScalar) error {
-  if v := x.GetFloat64(); v < 0.0 || math.Floor(v) != v {
+  if v := x.GetFloat64(); v < 0.0 || v > dist.n.GetFloat64() || math.Floor(v) != v {
     r.SetFloat64(math.Inf(-1))
     return nil
   }
@@ -120,12 +120,20 @@ func (dist *BinomialDistribution) LogPdf(r Scalar, x ConstScalar) error {
   r.Sub(dist.z, t1)
   r.Sub(r, t2)
 
-  // p^k
-  t1.Mul(dist.Theta, x)
+  // p^k (where 0^0 = 1)
+  if x.GetFloat64() == 0.0 {
+    t1.SetFloat64(0.0)
+  } else {
+    t1.Mul(dist.Theta, x)
+  }
 
-  // (1-p)^(n-k)
+  // (1-p)^(n-k) (where 0^0 = 1)
   t2.Sub(dist.n, x)
-  t2.Mul(dist.ct, t2)
+  if t2.GetFloat64() == 0.0 {
+    t2.SetFloat64(0.0)
+  } else {
+    t2.Mul(dist.ct, t2)
+  }
 
   // sum up results
   r.Add(r, t1)
